@@ -187,6 +187,9 @@ def rand_field_opts(rng, d, allow=("g", "p", "t", "s", "j", "r", "z", "fb", "m",
 
 def rand_input(rng, d, z, nrec=None, rich=True):
     alpha, eol = alphabet_for(d, z, rich)
+    if rich and rng.random() < 0.25:
+        # one arbitrary byte value per input (ASCII blanks, control bytes, UTF-8 lead/continuation bytes …): code keyed to one byte value
+        alpha = alpha + [bytes([rng.randrange(256)])] * 2
     nrec = nrec if nrec is not None else rng.choice([1, 1, 2, 3])
     recs = []
     for _ in range(nrec):
